@@ -852,6 +852,35 @@ func checkTreeTop(p *core.Program, r *core.Report, tm *treeModel, eng *tf.Engine
 	}
 	// NewTree
 	nt := sp.Func("NewTree")
+	// NewTree(depth) may only delegate (NewTreeWithOptions(depth), newTreeWithHasher(depth, h)): the constructor that does
+	// the work is the one whose first parameter receives NewTree's depth
+	for hop := 0; hop < 3 && nt != nil; hop++ {
+		var target *ssa.Function
+		nCalls, hasMake := 0, false
+		for _, b := range nt.Blocks {
+			for _, in := range b.Instrs {
+				switch x := in.(type) {
+				case *ssa.MakeSlice:
+					hasMake = true
+				case *ssa.Call:
+					if sc := x.Common().StaticCallee(); sc != nil && sc.Pkg == sp && len(sc.Blocks) > 0 && len(x.Common().Args) >= 1 && len(nt.Params) >= 1 && x.Common().Args[0] == ssa.Value(nt.Params[0]) {
+						if refs := x.Referrers(); refs != nil {
+							for _, rf := range *refs {
+								if _, isRet := rf.(*ssa.Return); isRet {
+									target = sc
+								}
+							}
+						}
+					}
+					nCalls++
+				}
+			}
+		}
+		if target == nil || hasMake || len(nt.Blocks) != 1 {
+			break
+		}
+		nt = target
+	}
 	nev := eng.NewEval(nt)
 	r.AnalysedFn(core.FuncName(nt))
 	depthP := nev.Params[0]
